@@ -14,7 +14,9 @@ CONSTANTS MinReq = 2
  V2Versions = {"v2", "v3"}
  DupPolicy = "first"
  MaxTime = 2
- MaxInject = 2
+ MaxInject = 1
  Malformed = FALSE
+ Lossy = TRUE
+ WithDecide = TRUE
 INVARIANTS Safety NoAbort FullExchangeAgree
 CHECK_DEADLOCK FALSE
